@@ -9,6 +9,7 @@ import (
 
 // Spec tells the oracles what the scenario did.
 type Spec struct {
+	Legacy       bool        // LM1: judged by JudgeLegacy (C20)
 	Shutdown     bool        // the scenario calls Shutdown (C02 exactly-once relaxed, C03 oracle on)
 	Order        [][2]string // callback ids (a,b) whose submissions are ordered by happens-before within one group
 	MustRun      []string    // callback ids that must run exactly once (no Shutdown scenarios, or submitted & accepted before Shutdown was called)
@@ -251,6 +252,9 @@ func Judge(sp *Spec, r *vsched.Result) []string {
 	}
 	if sp.Index {
 		return JudgeIndex(r)
+	}
+	if sp.Legacy {
+		return JudgeLegacy(r)
 	}
 	return out
 }
